@@ -90,7 +90,53 @@ def negate(t):
             and type(t.ops[0]) in _FLIP:
         return ast.Compare(left=t.left, ops=[_FLIP[type(t.ops[0])]()],
                            comparators=t.comparators)
+    if isinstance(t, ast.BoolOp):          # De Morgan
+        return ast.BoolOp(op=ast.Or() if isinstance(t.op, ast.And)
+                          else ast.And(), values=[negate(v) for v in t.values])
     return ast.UnaryOp(op=ast.Not(), operand=t)
+
+
+def inline_temps(stmts):
+    """ `t = E ; ... t ...` with t a local assigned once in this block: the
+    last statement with every such temporary replaced by its expression """
+    import copy
+    env = {}
+
+    class Sub(ast.NodeTransformer):
+        def visit_Name(self, n):
+            if isinstance(n.ctx, ast.Load) and n.id in env:
+                return copy.deepcopy(env[n.id])
+            return n
+
+    stmts = strip_log(stmts)
+    for st in stmts[:-1]:
+        need(isinstance(st, ast.Assign) and len(st.targets) == 1
+             and isinstance(st.targets[0], ast.Name)
+             and st.targets[0].id not in env,
+             "a statement that is not a single-assignment temporary", st)
+        env[st.targets[0].id] = Sub().visit(copy.deepcopy(st.value))
+    need(stmts, "empty block")
+    last = copy.deepcopy(stmts[-1])
+    return ast.fix_missing_locations(Sub().visit(last))
+
+
+def tail_if(body):
+    """ `if T: return A` + `return B`   ==   `if T: return A else: return B`;
+    returns (T, A, B) """
+    body = strip_log(body)
+    if len(body) == 1 and isinstance(body[0], ast.If) \
+            and len(strip_log(body[0].body)) == 1 \
+            and len(strip_log(body[0].orelse)) == 1:
+        a, b = strip_log(body[0].body)[0], strip_log(body[0].orelse)[0]
+    else:
+        need(len(body) == 2 and isinstance(body[0], ast.If)
+             and not body[0].orelse
+             and len(strip_log(body[0].body)) == 1, "if-return / return",
+             body[0] if body else None)
+        a, b = strip_log(body[0].body)[0], body[1]
+    need(isinstance(a, ast.Return) and isinstance(b, ast.Return),
+         "both branches return", body[0])
+    return body[0].test, a.value, b.value
 
 
 def canon(t):
@@ -201,10 +247,35 @@ class Out:
             self.failed.append((name, f"{type(exc).__name__}: {exc}"))
 
 
-def path_selector(f, name):
-    """ `if path: paths = [path] else: paths = list(<dict>.keys())`;
-    returns the definition text, info and the statements after it """
+ALL_KEYS = ('list(self._results_by_path.keys())',
+            'list(self._results_by_path)', 'self.files')
+
+
+def path_selector(f, name, cls=None):
+    """ `if path: paths = [path] else: paths = <all keys>`, inline or in a
+    private helper `paths = self._helper(path)` whose body is
+    `if path: return [path]` / `return <all keys>`; returns the definition
+    text, info and the statements after it """
     body = real_body(f)
+    first = body[0] if body else None
+    if isinstance(first, ast.Assign) and U(first.targets[0]) == 'paths' \
+            and isinstance(first.value, ast.Call) and cls is not None \
+            and U(first.value.func).startswith('self.') \
+            and [U(a) for a in first.value.args] + \
+                [U(k.value) for k in first.value.keywords] == ['path']:
+        hname = U(first.value.func)[5:]
+        helper = one([n for n in cls.body if isinstance(n, ast.FunctionDef)
+                      and n.name == hname], f"helper {hname}", first)
+        params = [a.arg for a in helper.args.args]
+        need(len(params) == 2, f"{hname}(self, path)", helper)
+        test, a, b = tail_if(real_body(helper))
+        mp = {params[1]: 'path'}
+        need(ren(test, mp) == 'path' and ren(a, mp) == '[path]'
+             and ren(b, mp) in ALL_KEYS,
+             f"{f.name}: helper {hname} is not `[path] if path else all "
+             "keys`", helper)
+        return (f"Definition {name} (p : Z) : bool := truthy p.",
+                {'test': 'path', 'helper': hname}, body[1:])
     ifs = [i for i, n in enumerate(body) if isinstance(n, ast.If)]
     need(len(ifs) >= 1, f"{f.name}: path test", f)
     n = body[ifs[0]]
@@ -214,8 +285,7 @@ def path_selector(f, name):
     need(len(n.body) == 1 and U(n.body[0]) == 'paths = [path]',
          f"{f.name}: restricted branch is not `paths = [path]`", n)
     need(len(n.orelse) == 1 and U(n.orelse[0]) in
-         ('paths = list(self._results_by_path.keys())',
-          'paths = list(self._results_by_path)', 'paths = self.files'),
+         tuple('paths = ' + k for k in ALL_KEYS),
          f"{f.name}: unrestricted branch is not all keys", n)
     need(not strip_log(body[:ifs[0]]), f"{f.name}: statements before the "
          "path test", f)
@@ -248,22 +318,15 @@ def generate(repo):
         need(isinstance(lp.target, ast.Name), "group loop target", lp)
         g = lp.target.id
         body = strip_log(lp.body)
-        # `capped = sorted(..)[..]; new_contents += capped` or directly
-        # `new_contents += sorted(..)[..]` / new_contents.extend(..)
-        if len(body) == 2 and isinstance(body[0], ast.Assign) \
-                and isinstance(body[0].targets[0], ast.Name) \
-                and isinstance(body[1], ast.AugAssign) \
-                and U(body[1].value) == body[0].targets[0].id:
-            val, tail = body[0].value, body[1]
-        else:
-            need(len(body) == 1, "_filtered_dir: group loop body changed", lp)
-            tail = body[0]
-            val = tail.value if isinstance(tail, ast.AugAssign) else (
-                tail.value.args[0]
-                if isinstance(tail, ast.Expr)
-                and isinstance(tail.value, ast.Call)
-                and U(tail.value.func) == 'new_contents.extend'
-                and len(tail.value.args) == 1 else None)
+        # `capped = sorted(..)[..]; new_contents += capped`, with or without
+        # temporaries, or new_contents.extend(..)
+        tail = inline_temps(body)
+        val = tail.value if isinstance(tail, ast.AugAssign) else (
+            tail.value.args[0]
+            if isinstance(tail, ast.Expr)
+            and isinstance(tail.value, ast.Call)
+            and U(tail.value.func) == 'new_contents.extend'
+            and len(tail.value.args) == 1 else None)
         need(val is not None and isinstance(val, ast.Subscript)
              and ((isinstance(tail, ast.AugAssign)
                    and isinstance(tail.op, ast.Add)
@@ -429,9 +492,9 @@ def generate(repo):
         need(isinstance(k, int), "group index", last)
         lp = one([n for n in body if isinstance(n, ast.For)], "filter loop",
                  f)
-        need(U(lp.iter) == 'filters'
-             and [U(x) for x in strip_log(lp.body)]
-             == ['ret = re.compile(f).match(fname)', 'if ret:\n    break'],
+        need(U(lp.iter) == 'filters' and isinstance(lp.target, ast.Name)
+             and [ren(x, {lp.target.id: 'g0'}) for x in strip_log(lp.body)]
+             == ['ret = re.compile(g0).match(fname)', 'if ret:\n    break'],
              "first matching filter wins (re.match)", lp)
         return (f"Definition x_sort_live_key : Z := {t0}.\n"
                 f"Definition x_sort_group_index : Z := {k}.\n"
@@ -486,7 +549,8 @@ def generate(repo):
     # ------------------------------------------------------------- C14
     def fbt():
         f = find_def(tree, 'SearchResultsCollection.find_by_tag')
-        sel, info, rest = path_selector(f, 'x_fbt_restrict')
+        sel, info, rest = path_selector(
+            f, 'x_fbt_restrict', find_def(tree, 'SearchResultsCollection'))
         nf = loop_nf(rest, 'find_by_tag')
         need(nf == ('list', ['paths', 'self.find_by_path(g0)'],
                     'g1.tag == tag', 'g1'),
@@ -499,7 +563,8 @@ def generate(repo):
     def gasr():
         f = find_def(tree,
                      'SearchResultsCollection._get_all_sequence_results')
-        sel, info, rest = path_selector(f, 'x_seq_restrict')
+        sel, info, rest = path_selector(
+            f, 'x_seq_restrict', find_def(tree, 'SearchResultsCollection'))
         nf = loop_nf(rest, '_get_all_sequence_results')
         need(nf == ('list', ['paths', 'self.find_by_path(g0)'],
                     'g1.sequence_id is not None', 'g1'),
@@ -635,7 +700,17 @@ def generate(repo):
         need(U(first) ==
              "alldefs = {s_def: True for s_def in self.info['searches']}",
              "search_defs: dict keyed by the definition", first)
-        need(U(real_body(sd)[-1]) == 'return alldefs', "return alldefs", sd)
+        last = real_body(sd)[-1]
+        keyed = U(last) == 'return alldefs'
+        if not keyed and isinstance(last, ast.Return) \
+                and isinstance(last.value, ast.DictComp):
+            dc = last.value          # {d: <flag> for d in alldefs}
+            keyed = (len(dc.generators) == 1 and not dc.generators[0].ifs
+                     and U(dc.generators[0].iter) in
+                     ('alldefs', "self.info['searches']")
+                     and U(dc.key) == U(dc.generators[0].target))
+        need(keyed, "search_defs returns a dict keyed by the definitions",
+             last)
         rs = find_def(tt, 'SearchTask._run_search')
         lines = one([n for n in rs.body if isinstance(n, ast.For)
                      and U(n.iter).startswith('enumerate(fd')],
@@ -773,6 +848,7 @@ def generate(repo):
         src = 'self._results_by_path'
         copies = [
             [f'return dict({src})'], [f'return {src}.copy()'],
+            [f'return dict({src}.items())'],
             [f'return {{**{src}}}'],
         ]
         ok = rest in copies
@@ -823,10 +899,12 @@ def generate(repo):
               'super().__init__(data)'],
              "ResultFieldInfo: a dict keeps its types, a list has none", init)
         et = find_def(tree, 'ResultFieldInfo.ensure_type')
-        need([U(x) for x in real_body(et)] ==
-             ['if name not in self.data or self.data[name] is None:\n'
-              '    return value',
-              'return self.data[name](value)'],
+        test, a, b = tail_if(real_body(et))
+        untyped = 'name not in self.data or self.data[name] is None'
+        if U(canon(test)) != untyped:
+            test, a, b = negate(test), b, a
+        need(U(canon(test)) == untyped and U(a) == 'value'
+             and U(b) == 'self.data[name](value)',
              "ensure_type: cast iff the field declares a type", et)
         itn = find_def(tree, 'ResultFieldInfo.index_to_name')
         body = real_body(itn)
